@@ -42,6 +42,7 @@ type c03Case struct {
 	expectValid bool   // harness verdict on the proof
 	mustAccept  bool   // valid proof and everything else in order: has to be accepted (completeness)
 	direct      bool   // not an IBTP transaction: a plain invocation by an external account
+	filler      bool   // an ordinary transfer that only moves the IBTPs to other positions of a larger block
 	pairKey     string // from>to whose counters must not move for invalid/direct cases
 	from, to    string
 }
@@ -217,14 +218,24 @@ func c03Property(t *rapid.T) {
 	nBlocks := rapid.IntRange(1, 4).Draw(t, "blocks")
 	nonTrivial := false
 	for bi := 0; bi < nBlocks; bi++ {
-		n := rapid.IntRange(1, 5).Draw(t, "ntx")
+		// blocks of up to 14 transactions: proofs are verified in (up to five) position groups, so the IBTPs have to
+		// appear at every position of blocks of every size, not only in the first five
+		n := rapid.IntRange(1, 14).Draw(t, "ntx")
 		var cases []*c03Case
 		b := &blockSpec{}
 		usedPairs := map[string]bool{}
 		for i := 0; i < n; i++ {
 			c := genCase()
-			if usedPairs[c.pairKey] {
-				continue // one IBTP per pair and block keeps the expected index unambiguous
+			if usedPairs[c.pairKey] || (n > 5 && rapid.IntRange(0, 2).Draw(t, "filler") == 0) {
+				// one IBTP per pair and block keeps the expected index unambiguous; the slot is taken by a transfer
+				k := sim.Outsiders[i%2]
+				fc := &c03Case{filler: true, desc: "filler transfer", tx: w.Transfer(k, sim.KeyFor("sink"), "1")}
+				cases = append(cases, fc)
+				b.txs = append(b.txs, &txSpec{tx: fc.tx, desc: fc.desc})
+				continue
+			}
+			if n > 5 && i >= 5 {
+				classesSeen["ibtp-beyond-position-5"] = true
 			}
 			usedPairs[c.pairKey] = true
 			cases = append(cases, c)
@@ -237,6 +248,9 @@ func c03Property(t *rapid.T) {
 		before := sim.DumpState(w.N.StateDB)
 		countersBefore := map[string][2]uint64{}
 		for _, c := range cases {
+			if c.filler {
+				continue
+			}
 			if ic := w.Interchain(c.from); ic != nil {
 				countersBefore[c.pairKey] = [2]uint64{ic.InterchainCounter[c.to], ic.ReceiptCounter[c.to]}
 			}
@@ -256,6 +270,11 @@ func c03Property(t *rapid.T) {
 		for i, c := range cases {
 			ops = append(ops, fmt.Sprintf("  block %d tx %d: %s -> ok=%v ret=%.90q", h+1, i, c.desc, rs[i].IsSuccess(), rs[i].Ret))
 			allowed[sim.AccountKey(c.tx.GetFrom())] = true
+			if c.filler {
+				allowed[sim.AccountKey(sim.KeyFor("sink").Addr)] = true
+				allInvalid = false
+				continue
+			}
 			if c.direct && strings.Contains(c.desc, "Invoke") {
 				// the broker contract's own bookkeeping may change; the interchain contract's must not (checked below)
 				allInvalid = false
